@@ -1,5 +1,5 @@
 """Mapping property -> rules, with the explanation that goes into the evidence."""
-from .rules import tree_rules, order_rules, opt_rules, gram_rules, driver_rules
+from .rules import tree_rules, order_rules, opt_rules, gram_rules, driver_rules, writer_rules
 
 RULES = {
     'R-LINK': tree_rules.r_link,
@@ -27,6 +27,11 @@ RULES = {
     'R-DISPATCH': driver_rules.r_dispatch,
     'R-SPLITARITH': driver_rules.r_splitarith,
     'R-STATE': driver_rules.r_state,
+    'R-NONE': writer_rules.r_none,
+    'R-ESC': writer_rules.r_esc,
+    'R-VOCAB': writer_rules.r_vocab,
+    'R-TABS': writer_rules.r_tabs,
+    'R-GUARD': writer_rules.r_guard,
 }
 
 # minimum number of instances per rule, confirmed by hand on the tree the checker was built for
